@@ -41,20 +41,26 @@ Definition model_cmp (c : cmp_case) : res value :=
 Definition check_cmp (c : cmp_case) : bool :=
   res_eqb value_eqb_syn (model_cmp c) (c_impl c).
 
-(* --- prim: the f64 primitives of the model against Rust's own (`as f64`, floor, `as i128`,
-       `as u128`); kind 0 = integer -> f64, 1 = floor, 2 = f64 -> i128, 3 = f64 -> u128 *)
-Record prim_case := { p_kind : N; p_z : Z; p_x : spec_float; p_f : spec_float; p_i : Z }.
+(* --- prim: the f64 primitives of the model against Rust's own; kind 0 = integer `as f64`,
+       1 = floor, 2 = `as i128`, 3 = `as u128`, 4 = x % y, 5 = trunc, 6 = rem_euclid,
+       7 = div_euclid *)
+Record prim_case := { p_kind : N; p_z : Z; p_x : spec_float; p_y : spec_float;
+                      p_f : spec_float; p_i : Z }.
 
 Definition model_prim (c : prim_case) : spec_float * Z :=
   match p_kind c with
   | 0%N => (f64_of_Z (p_z c), 0)
   | 1%N => (f_floor (p_x c), 0)
   | 2%N => (S754_nan, f_as_i128 (p_x c))
-  | _ => (S754_nan, f_as_u128 (p_x c))
+  | 3%N => (S754_nan, f_as_u128 (p_x c))
+  | 4%N => (f_fmod (p_x c) (p_y c), 0)
+  | 5%N => (f_trunc (p_x c), 0)
+  | 6%N => (f_rem_euclid (p_x c) (p_y c), 0)
+  | _ => (f_div_euclid (p_x c) (p_y c), 0)
   end.
 Definition check_prim (c : prim_case) : bool :=
   let '(f, i) := model_prim c in
   match p_kind c with
-  | 0%N | 1%N => sf_eqb_syn f (p_f c)
-  | _ => i =? p_i c
+  | 2%N | 3%N => i =? p_i c
+  | _ => sf_eqb_syn f (p_f c)
   end.
